@@ -147,7 +147,7 @@ def coq_op(o):
         return "ZNext " + F.zlist(o[1:])
     if k == "q":
         return "ZNextSq " + F.zlist(o[1:])
-    return {"c": "ZCurrent", "r": "ZReset", "w": "ZWindow"}[k]
+    return {"c": "ZCurrent", "r": "ZReset", "w": "ZWindow", "k": "ZClone"}[k]
 
 
 def build(item, ops=None):
@@ -165,9 +165,10 @@ def build(item, ops=None):
     else:
         flat = [v for fr in it["frames"] for v in fr]
         it.setdefault("fin", 0)
-        it["line"] = f"A {it['fmt']} {it['nostd']} {it['chans']} {it['n']} {it['sq']} {it['k']} {it['fin']} ; {' '.join(map(str, flat))}"
-        it["coq"] = (f"ACase {it['fmt']} {it['nostd']} {it['chans']} {it['n']} {F.zlistlist(it['frames'])} {it['sq']} {it['k']} {it['fin']}")
-        it["cost"] = 3 + it["k"] * it["chans"] * 7
+        it.setdefault("cl", -1)
+        it["line"] = f"A {it['fmt']} {it['nostd']} {it['chans']} {it['n']} {it['sq']} {it['k']} {it['fin']} {it['cl']} ; {' '.join(map(str, flat))}"
+        it["coq"] = (f"ACase {it['fmt']} {it['nostd']} {it['chans']} {it['n']} {F.zlistlist(it['frames'])} {it['sq']} {it['k']} {it['fin']} {F.zlit(it['cl'])}")
+        it["cost"] = 3 + (it["k"] + 2) * it["chans"] * 7 + it["n"] * it["chans"]
         it["ops"] = []
     return it
 
@@ -209,6 +210,10 @@ def gen_cases(rng, tier, nostd_ok, nostd_adaptor_ok=False):
         nframes = r.range(lo, maxf) if r.chance(3, 4) else r.range(1, lo)
         resets = r.chance(1, 3)
         ops = gen_history(r, fmt, chans, n, pattern, nframes, resets)
+        rk = r.fork("clone")   # derive(Clone): the detector is replaced by its clone mid-history (a third of the histories)
+        if rk.chance(1, 3):
+            for _ in range(rk.range(1, 2)):
+                ops.insert(rk.range(1, len(ops)), ["k"])
         first = r.below(n)
         zero = [[0] * chans for _ in range(n)]
         init = zero
@@ -240,8 +245,10 @@ def gen_cases(rng, tier, nostd_ok, nostd_adaptor_ok=False):
         n = r.choice([1, 2, 3, 7])
         nfr = r.range(0, 14)
         frames = [[enc(fmt, sample_value(r, fmt, r.choice(["nominal", "loudquiet"]), i, nfr)) for _ in range(chans)] for i in range(nfr)]
+        kk = nfr + r.below(4)
+        rk = r.fork("clone")
         items.append(build(dict(kind="A", fmt=fmt, nostd=0, chans=chans, n=n, frames=frames, sq=int(r.below(4) == 0),
-                                k=nfr + r.below(4), pattern="adaptor")))
+                                k=kk, cl=(rk.below(kk) if kk and rk.chance(1, 2) else -1), pattern="adaptor")))
     # all twelve integer formats, to_float_frame through the GENERATED conversions: quiet (within a few
     # hundred codes of equilibrium -- a conversion that drops low bits turns these into silence), full
     # scale, random; mono and stereo; std and no_std
@@ -267,6 +274,7 @@ def gen_cases(rng, tier, nostd_ok, nostd_adaptor_ok=False):
                         ops.append(["n"] + [v(kind) for _ in range(chans)])
                     ops.append(["c"])
                 ops += [["w"], ["r"], ["n"] + [v("quiet") for _ in range(chans)], ["c"]]
+                ops.insert(len(ops) // 2, ["k"])
                 items.append(build(dict(kind="R", fmt=10 + c, nostd=nostd, chans=chans, first=r.below(n), init=[[0] * chans for _ in range(n)],
                                         ops=ops, pattern="integer_format_generated_conv", resets=True)))
     # finite source (signal::from_iter) pulled well past exhaustion: the equilibrium frames that a
@@ -281,8 +289,10 @@ def gen_cases(rng, tier, nostd_ok, nostd_adaptor_ok=False):
         nfr = r.range(0, 6) if r.chance(1, 6) else r.range(1, 6)
         frames = [[enc(fmt, sample_value(r, fmt, r.choice(["nominal", "const", "loudquiet"]), i, nfr)) for _ in range(chans)] for i in range(nfr)]
         nostd = 1 if (nostd_adaptor_ok and (k // 4) % 2 == 1) else 0
+        kk = nfr + 2 * n + r.range(0, 3)
+        rk = r.fork("clone")
         items.append(build(dict(kind="A", fmt=fmt, nostd=nostd, chans=chans, n=n, frames=frames, sq=int(r.below(5) == 0),
-                                k=nfr + 2 * n + r.range(0, 3), fin=1, pattern="adaptor_finite_past_end")))
+                                k=kk, fin=1, cl=(rk.below(kk) if rk.chance(1, 2) else -1), pattern="adaptor_finite_past_end")))
     # reset on a state whose running sum is EXACTLY zero while the window still holds small non-zero
     # squares: large sample, j small samples (their squares are absorbed by rounding next to the large
     # one), zeros until the large square is evicted (sum = large - large = 0), window observed, reset,
@@ -433,7 +443,7 @@ def load_corpus():
     return items
 
 
-CASE_KEYS = ("kind", "fmt", "nostd", "chans", "first", "init", "ops", "n", "frames", "sq", "k", "fin", "pattern", "resets")
+CASE_KEYS = ("kind", "fmt", "nostd", "chans", "first", "init", "ops", "n", "frames", "sq", "k", "fin", "cl", "pattern", "resets")
 
 
 def main(rep, tier, seed):
